@@ -575,6 +575,17 @@ class DateTimeFieldFormat(AbstractFieldFormat):
         self._has_date = any(
             directive in self.strptime_format for directive in DateTimeFieldFormat._STRPTIME_DATE_DIRECTIVES
         )
+        try:
+            time.strptime("", self.strptime_format)
+        except ValueError:
+            # The empty text does not match the format, which is fine.
+            pass
+        except re.error as error:
+            # For example the same place holder used twice.
+            raise errors.InterfaceError(
+                "date format must be %s but is: %s (%s)"
+                % ("a valid combination of place holders", _compat.text_repr(rule), error)
+            )
 
     def sql_ansi_type(self):
         # FIXME: Use timestamp for ANSI, date, datetime and time for others.
